@@ -1,5 +1,5 @@
 SPECIFICATION Spec
 CONSTANTS Keys = {"a", "b"}  MaxOps = 5  MaxFaults = 2  MaxCrashes = 2
-INVARIANTS DiskIsWrittenPrefix AckedSurvive MemNeverAhead MemBehindOnlyInside
+INVARIANTS DiskIsWrittenPrefix AckedSurvive MemNeverAhead MemBehindOnlyInside ReadsSeeDisk LoadOnlyWhenNeeded
 PROPERTIES FailedWriteInvisible AfterRecovery
 CHECK_DEADLOCK FALSE
